@@ -65,19 +65,23 @@ func main() {
 	t0 := time.Now()
 
 	var descs []*pairDesc
+	var longs []longDesc
 	if *replay != "" {
 		var rp struct {
 			Input struct {
 				Pair *pairDesc `json:"pair"`
+				Long *longDesc `json:"long"`
 			} `json:"input"`
 		}
 		b, err := os.ReadFile(*replay)
-		if err != nil || json.Unmarshal(b, &rp) != nil || rp.Input.Pair == nil {
+		if err == nil && json.Unmarshal(b, &rp) == nil && rp.Input.Long != nil {
+			longs = append(longs, *rp.Input.Long)
+		} else if err != nil || json.Unmarshal(b, &rp) != nil || rp.Input.Pair == nil {
 			fmt.Fprintln(os.Stderr, "cannot read the replay input:", err)
 			os.Exit(2)
 		}
 		// a live pair depends on scheduling: run the same input three times
-		for i := 0; i < 3; i++ {
+		for i := 0; i < 3 && rp.Input.Pair != nil; i++ {
 			d := *rp.Input.Pair
 			d.ID = i
 			descs = append(descs, &d)
@@ -94,6 +98,9 @@ func main() {
 			d := genPair(*seed, id, nil)
 			descs = append(descs, &d)
 			id++
+		}
+		for i := 0; i < 6+*n/40; i++ {
+			longs = append(longs, genLong(*seed, i))
 		}
 	}
 
@@ -197,6 +204,18 @@ func main() {
 		sw.close()
 		rj.Cases = sw.index
 		rj.Skipped = sw.skipped
+	}
+	for _, ld := range longs {
+		calls, bad := runLong(ld)
+		rj.Distribution["long-session:mpegts-converter-calls:"+bucket(calls)]++
+		rj.Distribution[fmt.Sprintf("long-session:hours:%d-%d", ld.Hours/10*10, ld.Hours/10*10+9)]++
+		if bad != "" {
+			f := failure{Signature: "C09:mpegts:long-session:timestamp-differs", What: bad,
+				Input: map[string]interface{}{"long": ld}, size: ld.Hours}
+			if b, ok := best[f.Signature]; !ok || f.size < b.size {
+				best[f.Signature] = f
+			}
+		}
 	}
 	for k, v := range st.outcomes {
 		rj.Distribution["client-end:"+k] += v
